@@ -254,7 +254,12 @@ def install() -> None:
     _wrap_method(DCMotor, "_apply_speed", _motor_emit)
     _wrap_method(DCMotor, "stop", _motor_emit)
     _wrap_method(DCMotor, "coast", _motor_emit)
-    _wrap_method(SerialMonitor, "write", lambda rec, mon, text: rec.event("ser", text))
+    def _ser(rec, mon, text):
+        # what reaches the wire is text + newline: an embedded newline makes several lines
+        for part in str(text).split("\n"):
+            rec.event("ser", part)
+
+    _wrap_method(SerialMonitor, "write", _ser)
 
     def _lcd_init(rec, lcd, _r):
         rec.lcds.append(lcd)
